@@ -16,6 +16,8 @@
 -/
 import Proofs.Lemmas.OptionsRoutes
 import Proofs.Lemmas.OptionsTotal
+import Proofs.Lemmas.OptionsRules
+import Proofs.C04
 
 namespace C06
 open Config Options
@@ -322,5 +324,202 @@ example : emit false .direct .nextImf rillingUser = .error .typeError := rfl
 example : emit false .direct .sift badTop = .error .typeError := rfl
 example : ¬ GoodImf (optA badImf.imf) := fun h =>
   absurd (h.1 "nope".toList (by simp [badImf, optA, mk, Assoc.keys])) (by decide)
+
+/-! ### the supplied numbers reach the rule, each in its own place (link to the Sift model, C04)
+
+  `Options.imfOptsOf a` / `stopRuleOf a` read the bound arguments `a` of a `get_next_imf` call the way the code
+  does (`sd=sd_thresh`; `sd1=rilling_thresh[0], sd2=rilling_thresh[1], tol=rilling_thresh[2]`; `max_iters`;
+  `env_step_size`; `energy_thresh is not None`) and return the options of the Sift model's `get_next_imf`
+  (`Sift.ImfOpts`), about which C04 proves what each number does.  A slip such as `tol=rilling_thresh[0]`
+  (seeded C06-7) or a fallback dictionary that gains `energy_thresh` (seeded C01-7) contradicts the theorems
+  below whatever the variant and route. -/
+
+/-- **Every `get_next_imf` call evaluates the rule the user's options stand for.**  For every variant, route and
+    user dictionary: each `get_next_imf` call of the run (main process, pool jobs, noise-only sifts, first-IMF
+    extraction of the masked sift) reads — from the arguments it is actually called with — the same stop rule,
+    step size, iteration limit and energy threshold as the user's IMF options resolved against the signature
+    defaults; nothing else enters. -/
+theorem gni_rule_as_supplied (r : Route) (v : Variant) (u : User) (hu : WF u) (cs : List StageCall)
+    (h : emit false r v u = .ok cs) (c : StageCall) (hc : c ∈ cs) (hs : c.stage = .gni) :
+    stopRuleOf c.args = stopRuleOf (resolve gniOwn (userImf v u)) ∧
+    imfOptsOf c.args = imfOptsOf (resolve gniOwn (userImf v u)) :=
+  imfOptsOf_congr _ _ (obeys_gni_eq_resolve (stage_opts_effective r v u hu cs h) c hc hs)
+
+/-- **Each component of a supplied `rilling_thresh` reaches `rilling_stop` in its own position.**  With
+    `stop_method='rilling'` and `rilling_thresh = (t0, t1, t2, …)` (tuple, list or array of numbers) supplied, every
+    `get_next_imf` call of every variant on every route evaluates `Sift.StopRule.rilling t0 t1 t2`, i.e. (C04) in
+    each iteration `rilling_stop(upper, lower, sd1 = t0, sd2 = t1, tol = t2)`, which fires iff the number of samples
+    whose metric exceeds `t0` is at most `t2 · N` and no sample exceeds `t1`. -/
+theorem rilling_thresh_positions (r : Route) (v : Variant) (u : User) (hu : WF u) (cs : List StageCall)
+    (h : emit false r v u = .ok cs) (k : Kind) (t0 t1 t2 : Tree) (rest : TreeList) (a0 a1 a2 : Rat)
+    (hm : (userImf v u).lookup "stop_method".toList = some (s "rilling"))
+    (ht : (userImf v u).lookup "rilling_thresh".toList = some (.seq k (.cons t0 (.cons t1 (.cons t2 rest)))))
+    (h0 : numOf t0 = some a0) (h1 : numOf t1 = some a1) (h2 : numOf t2 = some a2)
+    (c : StageCall) (hc : c ∈ cs) (hs : c.stage = .gni) :
+    stopRuleOf c.args = .ok (.rilling a0 a1 a2) ∧
+    ∀ (niters maxIters : Nat) (hh x1 U L : Sig),
+      (Sift.stopTest (.rilling a0 a1 a2) niters maxIters hh x1 U L = true ↔
+        (((List.zip U L).countP (fun p => decide (Sift.RillingExceeds a0 p.1 p.2)) : Nat) : Rat)
+            ≤ a2 * ((List.zip U L).length : Rat) ∧
+        ∀ p ∈ List.zip U L, ¬ Sift.RillingExceeds a1 p.1 p.2) := by
+  refine ⟨?_, fun niters maxIters hh x1 U L => ?_⟩
+  · rw [(gni_rule_as_supplied r v u hu cs h c hc hs).1]
+    unfold stopRuleOf
+    rw [arg_resolve_own _ "stop_method" (s "sd") rfl, arg_resolve_own _ "rilling_thresh" rillingDefault rfl, hm, ht]
+    have e1 : ¬ ("rilling".toList = "sd".toList) := by decide
+    simp [-String.reduceToList, s, Tree.str, numAt, seqGet, TreeList.toList, h0, h1, h2, bind, Except.bind, e1]
+  · rw [(C04.stopTest_dispatch niters maxIters hh x1 U L).2]
+    exact C04.rillingStop_iff a0 a1 a2 U L
+
+/-- **A supplied `sd_thresh` is the number `sd_stop` compares with** (default rule, or `stop_method='sd'` spelled
+    out): every `get_next_imf` call of every variant on every route evaluates `Sift.StopRule.sd t`. -/
+theorem sd_thresh_as_supplied (r : Route) (v : Variant) (u : User) (hu : WF u) (cs : List StageCall)
+    (h : emit false r v u = .ok cs) (tv : Tree) (t : Rat)
+    (hm : ((userImf v u).lookup "stop_method".toList).getD (s "sd") = s "sd")
+    (ht : (userImf v u).lookup "sd_thresh".toList = some tv) (hn : numOf tv = some t)
+    (c : StageCall) (hc : c ∈ cs) (hs : c.stage = .gni) :
+    stopRuleOf c.args = .ok (.sd t) := by
+  rw [(gni_rule_as_supplied r v u hu cs h c hc hs).1]
+  unfold stopRuleOf
+  rw [arg_resolve_own _ "stop_method" (s "sd") rfl, arg_resolve_own _ "sd_thresh" f0_1 rfl, hm, ht]
+  simp [-String.reduceToList, s, Tree.str, hn]
+
+/-- **No energy test unless the caller asks for one.**  If the user's IMF options hold no `energy_thresh` (or hold
+    `None`), then every `get_next_imf` call of every variant on every route — including `sift(x)` with no
+    `imf_opts` at all, where the code substitutes its own fallback dictionary — runs with `energy_thresh = None`:
+    whatever options it reads (`imfOptsOf c.args = .ok o`), `o.energyThresh = none`, so the energy-ratio stop
+    cannot fire (C04.energy_flag; C01.sift_getNextImf_complete then gives the complete decomposition). -/
+theorem no_energy_thresh_unless_supplied (r : Route) (v : Variant) (u : User) (hu : WF u) (cs : List StageCall)
+    (h : emit false r v u = .ok cs)
+    (he : ((userImf v u).lookup "energy_thresh".toList).getD none' = none')
+    (c : StageCall) (hc : c ∈ cs) (hs : c.stage = .gni) (o : Sift.ImfOpts) (ho : imfOptsOf c.args = .ok o) :
+    o.energyThresh = none := by
+  rw [(gni_rule_as_supplied r v u hu cs h c hc hs).2] at ho
+  unfold imfOptsOf at ho
+  rw [arg_resolve_own _ "energy_thresh" none' rfl, he] at ho
+  cases hst : stopRuleOf (resolve gniOwn (userImf v u)) with
+  | error e => rw [hst] at ho; simp [bind, Except.bind] at ho
+  | ok st =>
+    rw [hst] at ho
+    cases hstep : numOf (arg (resolve gniOwn (userImf v u)) "env_step_size") with
+    | none => rw [hstep] at ho; simp [bind, Except.bind] at ho
+    | some stp =>
+      cases hmi : natOf (arg (resolve gniOwn (userImf v u)) "max_iters") with
+      | none => rw [hstep, hmi] at ho; simp [bind, Except.bind] at ho
+      | some mi =>
+        rw [hstep, hmi] at ho
+        simp [bind, Except.bind, energyOf, isNone, none', Tree.none] at ho
+        rw [← ho]
+
+/-- **Second-layer `sift_args` carry every supplied option, with or without `max_imfs`.**  `sift_second_layer`
+    hands `sift_args` to the sift function as they are; `mask_sift_second_layer` writes exactly two entries
+    (`max_imfs` only when absent, `mask_freqs`) and leaves every other entry as supplied — in particular
+    `imf_opts`, `envelope_opts`, `extrema_opts`; a supplied `max_imfs` is kept.  (With `stage_opts_effective` for
+    `v = .second inner` / `.maskSecond`, whose `u.top` is arbitrary: the stages of a second-layer sift work with the
+    user's options whether or not `max_imfs` is among the keywords.) -/
+theorem second_layer_args_carry_every_option (legacy : Bool) (inner : Variant) (kw : Assoc) :
+    runVariant legacy (.second inner) kw = runVariant legacy inner kw ∧
+    (∀ q, q ≠ "max_imfs".toList → q ≠ "mask_freqs".toList → (maskSecondArgs kw).lookup q = kw.lookup q) ∧
+    (∀ m, kw.lookup "max_imfs".toList = some m → (maskSecondArgs kw).lookup "max_imfs".toList = some m) ∧
+    ((maskSecondArgs kw).lookup "max_imfs".toList).isSome = true := by
+  refine ⟨rfl, fun q h1 h2 => lookup_maskSecondArgs kw q h1 h2, ?_, ?_⟩
+  · intro m hm
+    unfold maskSecondArgs
+    simp only []
+    rw [Assoc.lookup_insert_other _ _ _ (by decide)]
+    simp [-String.reduceToList, Assoc.contains, hm]
+  · unfold maskSecondArgs
+    simp only []
+    rw [Assoc.lookup_insert_other _ _ _ (by decide)]
+    cases hm : kw.lookup "max_imfs".toList with
+    | some m => simp [-String.reduceToList, Assoc.contains, hm]
+    | none => simp [-String.reduceToList, Assoc.contains, hm, Assoc.lookup_insert_same]
+
+-- non-vacuity.  A user who supplies `rilling_thresh = (0.05, 0.5, 0.4)` (third entry ≠ first):
+def rilling3User : User :=
+  { top := .nil, env := none, ext := none,
+    imf := some (mk [("stop_method", s "rilling"), ("rilling_thresh", .seq .tuple (.cons (f 1 20) (.cons (f 1 2) (.cons (f 2 5) .nil))))]) }
+-- every `get_next_imf` call of the masked sift (two chains) and of the second-layer sift without `max_imfs` reads
+-- sd1 = 1/20, sd2 = 1/2, tol = 2/5
+example : ∃ cs, emit false .direct .mask rilling3User = .ok cs ∧
+    (cs.filter (·.stage = .gni)).map (fun c => (imfOptsOf c.args).toOption.map (·.stop)) =
+      [some (.rilling (1/20) (1/2) (2/5)), some (.rilling (1/20) (1/2) (2/5))] := ⟨_, rfl, by decide +kernel⟩
+example : ∃ cs, emit false .direct .maskSecond rilling3User = .ok cs ∧
+    (cs.filter (·.stage = .gni)).map (fun c => (imfOptsOf c.args).toOption.map (·.stop)) =
+      [some (.rilling (1/20) (1/2) (2/5))] := ⟨_, rfl, by decide +kernel⟩
+-- the positions matter: on envelopes where one sample in four exceeds sd1, tol = 2/5 stops and tol = 1/20 (the
+-- FIRST entry put in the third place) does not
+example : Sift.rillingStop (1/20) (1/2) (2/5) [1, 1, 1, 12/10] [-1, -1, -1, -1] = true ∧
+    Sift.rillingStop (1/20) (1/2) (1/20) [1, 1, 1, 12/10] [-1, -1, -1, -1] = false := by decide +kernel
+-- no `imf_opts` at all: the fallback dictionary of `sift` yields the default rule and NO energy threshold
+example : ∃ cs, emit false .direct .sift pchipUser = .ok cs ∧
+    (cs.filter (·.stage = .gni)).map (fun c => (imfOptsOf c.args).toOption.map (fun o => (o.energyThresh, o.maxIters, o.step))) =
+      [some (none, 1000, 1)] := ⟨_, rfl, by decide +kernel⟩
+
+/-! ### both deliveries combined: a partial sift function AND `sift_args` (second layer)
+
+  `sift_second_layer(IA, sift_func=cfg.get_func(), sift_args={…})` calls `partial(inner, **cfg)(IA[:, ii], **sift_args)`.
+  Ordinary `functools.partial` semantics: a keyword supplied at call time replaces the frozen one.  A merge in the
+  other direction (`sift_args.update(sift_func.keywords)`, seeded C06-5) contradicts the two theorems below. -/
+
+/-- `partial(f, **frozen)(x, **call)`: a keyword the call supplies is used as supplied; a frozen keyword the call does
+    not repeat stays. -/
+theorem partial_call_keywords_win (frozen call : Assoc) (hn : NodupKeys call) (p : Key) :
+    (∀ v, call.lookup p = some v → (mergeKw frozen call).lookup p = some v) ∧
+    (call.lookup p = none → (mergeKw frozen call).lookup p = frozen.lookup p) := by
+  rw [lookup_mergeKw frozen call hn p]
+  exact ⟨fun v h => by rw [h]; rfl, fun h => by rw [h]; rfl⟩
+
+/-- **The option dictionaries passed in `sift_args` govern the stages although the sift function is a `get_func`
+    partial that holds (default) dictionaries of its own** — for every configurable inner sift, every top-level
+    keyword frozen in the partial and every user dictionary: all stage calls obey the user's options exactly as on
+    the three plain routes (`stage_opts_effective`). -/
+theorem funcArgs_stage_opts_effective (inner : Variant) (u : User) (hu : WF u) (hcf : Configurable inner)
+    (cs : List StageCall) (h : emitFuncArgs false inner u = .ok cs) :
+    Obeys (optA u.imf) (optA u.env) (optA u.ext) cs := by
+  obtain ⟨c1, c2, c3, c4⟩ := cfg_facts (baseVariant inner) hcf
+  obtain ⟨K0, hK0, k1, k2, k3, _⟩ := kwargsConfig_spec (baseVariant inner)
+    { top := u.top, imf := none, env := none, ext := none } c1 c2 c3 c4 hu.clean hu.topSlash
+    (by simp [optA, Assoc.keys]) (by simp [optA, Assoc.keys]) (by simp [optA, Assoc.keys])
+  obtain ⟨hn, l1, l2, l3⟩ := kwargsDirect_noTop u.imf u.env u.ext
+  have h' : runVariant false inner
+      (mergeKw K0 (kwargsDirect { top := .nil, imf := u.imf, env := u.env, ext := u.ext })) = .ok cs := by
+    simpa [emitFuncArgs, hK0, bind, Except.bind, runVariant] using h
+  have ob := runVariant_obeys inner h'
+  rw [(imfOf_config inner _ hcf).1] at ob
+  have e1 := lookup_mergeKw K0 _ hn "imf_opts".toList
+  have e2 := lookup_mergeKw K0 _ hn "envelope_opts".toList
+  have e3 := lookup_mergeKw K0 _ hn "extrema_opts".toList
+  rw [l1] at e1; rw [l2] at e2; rw [l3] at e3
+  simp only [kwArg] at ob k1 k2 k3
+  rw [e1, e2, e3] at ob
+  refine ob.congr ?_ ?_ ?_
+  · intro p d hp
+    cases hi : u.imf with
+    | some a => simp [dictOf, optA]
+    | none =>
+      simp only [Option.map_none, Option.orElse_none, k1, dictOf, optA, Option.getD_none]
+      exact assignA_own_lookup gniOwn gniOwn .nil (by simp [NodupKeys, Assoc.keys]) (fun _ _ h => gniOwn_self h) hp
+  · intro p d hp
+    cases hi : u.env with
+    | some a => simp [dictOf, optA]
+    | none =>
+      simp only [Option.map_none, Option.orElse_none, k2, dictOf, optA, Option.getD_none]
+      exact assignA_own_lookup ieOwn envDefaults .nil (by simp [NodupKeys, Assoc.keys]) (fun _ _ h => envDefaults_agree h) hp
+  · intro p d hp
+    cases hi : u.ext with
+    | some a => simp [dictOf, optA]
+    | none =>
+      simp only [Option.map_none, Option.orElse_none, k3, dictOf, optA, Option.getD_none]
+      exact assignA_ext_lookup .nil (by simp [NodupKeys, Assoc.keys]) hp
+
+-- non-vacuity: the partial of `get_config('sift')` holds interp_method 'splrep'; `sift_args` says 'pchip': 'pchip' it is
+example : ∃ cs, emitFuncArgs false .sift pchipUser = .ok cs ∧
+    (cs.filter (·.stage = .ie)).map (fun c => c.args.lookup "interp_method".toList) = [some (s "pchip"), some (s "pchip")] :=
+  ⟨_, rfl, rfl⟩
+example : ∃ cs, emitFuncArgs false .mask rilling3User = .ok cs ∧
+    (cs.filter (·.stage = .gni)).map (fun c => c.args.lookup "stop_method".toList) = [some (s "rilling"), some (s "rilling")] :=
+  ⟨_, rfl, rfl⟩
+example : Configurable .sift ∧ Configurable .mask := ⟨Or.inl rfl, Or.inr (Or.inr (Or.inr rfl))⟩
 
 end C06
